@@ -6,6 +6,7 @@
 From DS Require Import Base.Prelude Base.Bits Gen.AcmdTables Model.AcmdFrame.
 From DS Require Import Model.AcmdAxis Proofs.AcmdFrameProofs Proofs.AcmdAxisProofs.
 From DS Require Import Model.AcmdReset Proofs.AcmdResetProofs.
+From DS Require Import Model.AcmdStatus Proofs.AcmdStatusProofs.
 From Coq Require Import Reals.
 From Flocq Require Import Core IEEE754.BinarySingleNaN.
 
@@ -249,3 +250,50 @@ Example C14_ex_reset_refused :
   xa_err x' = 4294967295 /\ rx_answer (xa_ax x') = 4 /\ ex_mode (xa_ax x') = 2 /\
   zmem (axis_state (mo ex_active_az)) [0; 1] = false.
 Proof. vm_compute. repeat split; reflexivity. Qed.
+
+(* ---- update_status: the limit / rate warning bits (Model/AcmdStatus.v) ---- *)
+
+(* After update_status the five warning bits say where p_Ist is w.r.t. the operating range
+   (pre-limit: at or beyond the bound; final limit: beyond it) and whether |v_Ist| exceeds the
+   maximum rate; every other warning bit, the error word, the general flags and the auxiliary
+   fields are kept, and the [axis] part is AcmdAxis.tick (only stowPosOk can change). *)
+Theorem C14_update_status : forall cfg x x', xtick cfg x = Some x' ->
+  exists vmax, rate_limit_udeg cfg = Some vmax /\
+  let p := p_Ist (mo (xa_ax x)) in
+  let v := v_Ist (mo (xa_ax x)) in
+  Z.testbit (xa_warn x') bit_Pre_Limit_Dn = (p <=? lo_udeg cfg) /\
+  Z.testbit (xa_warn x') bit_Fin_Limit_Dn = (p <? lo_udeg cfg) /\
+  Z.testbit (xa_warn x') bit_Pre_Limit_Up = (hi_udeg cfg <=? p) /\
+  Z.testbit (xa_warn x') bit_Fin_Limit_Up = (hi_udeg cfg <? p) /\
+  Z.testbit (xa_warn x') bit_Rate_Limit = (vmax <? Z.abs v) /\
+  (forall k, 0 <= k -> ~ In k update_bits -> Z.testbit (xa_warn x') k = Z.testbit (xa_warn x) k) /\
+  xa_err x' = xa_err x /\ xa_gen x' = xa_gen x /\ xa_aux x' = xa_aux x /\
+  xa_ax x' = tick cfg (xa_ax x).
+Proof. exact update_status_spec. Qed.
+Print Assumptions C14_update_status.
+
+(* the hypothesis is satisfiable for both shipped axes (finite maximum rate) *)
+Theorem C14_update_status_defined : rate_limit_udeg cfg_AZ <> None /\ rate_limit_udeg cfg_EL <> None.
+Proof. exact shipped_rate_limits. Qed.
+Print Assumptions C14_update_status_defined.
+
+(* ---- the slave axis (cable wrap) ---- *)
+
+(* no subsystem id of a command addresses anything but AZ, EL, PS, so no command is dispatched
+   to the cable wrap (a command naming any other subsystem is not well-formed, C14_wf_is_executed /
+   C14_executed_only_if_wf); its brakes are open exactly when its master (AZ) is active *)
+Theorem C14_slave_axis : forall sub k st,
+  (zlookup sub subsystems = Some k -> k = 0 \/ k = 1 \/ k = 2) /\
+  (st = CW_master_active -> cw_brakes st = mask CW_n_motors) /\
+  (st <> CW_master_active -> cw_brakes st = 0) /\ mask CW_n_motors <> 0.
+Proof. exact (fun sub k st => conj (slave_not_addressable sub k) (cw_brakes_spec st)). Qed.
+Print Assumptions C14_slave_axis.
+
+(* non-vacuity: the elevation at its upper bound + 1 microdegree moving at 0.5 deg/s + 1 *)
+Example C14_ex_update_status :
+  let m := mo (axis_init cfg_EL) in
+  let ax := with_mo (axis_init cfg_EL) (set_vel (set_pos m (p_Soll m) (hi_udeg cfg_EL + 1)) 0 500001) in
+  option_map xa_warn (xtick cfg_EL (mkXa ax 14 0 0 [])) = Some (2 ^ 19 + 2 ^ 21 + 2 ^ 23) /\
+  option_map xa_warn (xtick cfg_EL (mkXa (axis_init cfg_EL) 14 (2 ^ 32 - 1) 0 []))
+    = Some (2 ^ 32 - 1 - 2 ^ 20 - 2 ^ 21 - 2 ^ 22 - 2 ^ 23).
+Proof. vm_compute. split; reflexivity. Qed.
